@@ -493,7 +493,11 @@ VarWrite(s, v, op, x) ==
                                 THEN Append(@, [v |-> v, r |-> old]) ELSE @]
 
 (* Observer lifecycle (internal_observer.rs:74-141, 206-231; public.rs:95-121) *)
-DisallowObs(s, o) ==
+\* ghost: nodes one of whose observers had a lifecycle call since the last stabilise finished (C10:
+\* such calls must not affect the OTHER observers / subscriptions of that node)
+Touch(s, o) == [s EXCEPT !.obsTouched = @ \cup {s.onode[o]}]
+DisallowObs(s0, o) ==
+  LET s == Touch(s0, o) IN
   CASE s.ostate[o] = "created" ->
          [s EXCEPT !.stats.activeObs = @ - 1, !.ostate[o] = "unlinked", !.osubs[o] = <<>>]
     [] s.ostate[o] = "inuse" ->
@@ -501,7 +505,8 @@ DisallowObs(s, o) ==
                    !.disObs = Append(@, o)]
     [] OTHER -> s
 \* try_subscribe; result appended to retLog as [o, r]
-Subscribe(s, o, eff) ==
+Subscribe(s0, o, eff) ==
+  LET s == Touch(s0, o) IN
   IF ~Ok(s) THEN s ELSE
   IF s.ostate[o] \in {"disallowed", "unlinked"}
   THEN [s EXCEPT !.retLog = Append(@, [o |-> o, r |-> <<"err", "Disallowed">>])] ELSE
@@ -514,7 +519,8 @@ Subscribe(s, o, eff) ==
       s2 == IF s1.ostate[o] = "inuse" THEN [s1 EXCEPT !.numH[n] = @ + 1] ELSE s1
   IN HandleAfter(s2, n)
 \* Observer::unsubscribe(token) where the token was issued by observer `to`
-Unsubscribe(s, o, to, tok) ==
+Unsubscribe(s0, o, to, tok) ==
+  LET s == Touch(Touch(s0, o), to) IN
   IF ~Ok(s) THEN s ELSE
   IF to # o THEN [s EXCEPT !.retLog = Append(@, [o |-> o, r |-> <<"err", "Mismatch">>])] ELSE
   IF s.ostate[o] \in {"disallowed", "unlinked"}
@@ -627,7 +633,9 @@ RunEffects(s, eff, i, ctx) ==
   IF ~Ok(s) \/ i > Len(eff) THEN s ELSE
   LET e == eff[i]
       s1 == CASE e.e = "set"  -> IF e.v \in s.vhandles THEN VarWrite(s, e.v, e.op, e.x) ELSE s
-              [] e.e = "read" -> [s EXCEPT !.readLog = Append(@, [o |-> e.o, r |-> ObsRead(s, e.o)])]
+              [] e.e = "read" ->     \* the closure reads through a handle it can still get hold of
+                   IF e.o <= s.no /\ s.oclones[e.o] > 0
+                   THEN [s EXCEPT !.readLog = Append(@, [o |-> e.o, r |-> ObsRead(s, e.o)])] ELSE s
               [] e.e = "sub"  -> IF s.oclones[e.o] > 0 THEN Subscribe(s, e.o, <<>>) ELSE s
               [] e.e = "unsub" -> Unsubscribe(s, e.o, e.o, e.t)
               [] e.e = "disallow" -> DisallowObs(s, e.o)
@@ -1138,7 +1146,7 @@ StabiliseFinish(s) ==
             !.inv = <<>>, !.cutLog = <<>>, !.cbLog = <<>>, !.obsLog = <<>>, !.invLog = <<>>,
             !.readLog = <<>>, !.dlv = <<>>, !.order = <<>>, !.rhsLog = <<>>, !.memoLog = <<>>,
             !.lastRan = [n \in 1..s.n |-> 0], !.lastChg = [n \in 1..s.n |-> 0],
-            !.subsAtBegin = <<>>, !.ostateH = <<>>, !.osubsH = <<>>, !.popped = 0, !.chainFrom = 0, !.running = 0,
+            !.subsAtBegin = <<>>, !.ostateH = <<>>, !.osubsH = <<>>, !.obsTouched = {}, !.popped = 0, !.chainFrom = 0, !.running = 0,
             !.memos = [i \in 1..Len(s.memos) |->
                          [s.memos[i] EXCEPT !.table = SelectSeq(@, LAMBDA r : Alive(s, r.node))]]]
 
@@ -1153,7 +1161,7 @@ InitState(maxH) ==
    scope |-> <<>>, cutoff |-> <<>>, force |-> <<>>, nobs |-> <<>>, numH |-> <<>>,
    inHas |-> <<>>, mrDid |-> <<>>, rhs |-> <<>>, created |-> <<>>, gen |-> <<>>, born |-> <<>>,
    edges |-> <<>>, fstale |-> <<>>, ninv |-> <<>>, fireAll |-> <<>>,
-   xprev |-> <<>>, xstore |-> <<>>, xdeps |-> <<>>, xcell |-> <<>>, ne |-> 0, xdead |-> {}, poisoned |-> FALSE, handles |-> {}, vhandles |-> {}, memos |-> <<>>, memoLog |-> <<>>,
+   xprev |-> <<>>, xstore |-> <<>>, xdeps |-> <<>>, xcell |-> <<>>, ne |-> 0, xdead |-> {}, poisoned |-> FALSE, handles |-> {}, vhandles |-> {}, obsTouched |-> {}, memos |-> <<>>, memoLog |-> <<>>,
    setAt |-> <<>>, cell |-> <<>>, pend |-> <<>>,
    \* observers
    no |-> 0, onode |-> <<>>, ostate |-> <<>>, osubs |-> <<>>, onext |-> <<>>, oclones |-> <<>>,
